@@ -326,4 +326,325 @@ theorem simpleUnmark_spec' {es : Ents} (hok : EntsOK es) (n : Name) (v : MT) (im
                 exact not_Mk_of_mark_no hnd he hmno h2
             · exact Iff.rfl
 
+
+theorem bind_ok' {α β : Type} {x : Outcome α} {f : α → Outcome β} {r : β} (h : (x >>= f) = .ok r) :
+    ∃ a, x = .ok a ∧ f a = .ok r := by
+  cases x with
+  | ok a => exact ⟨a, rfl, h⟩
+  | crash c => cases h
+  | outOfFuel => cases h
+
+theorem unmark_orfree : ∀ f : Nat,
+    (∀ t es r, unmarkAll f t es = .ok r → POK t → EntsOK es → (∀ x ∈ placed t, x ∈ names es) → UPost' t es r) ∧
+    (∀ cs es r, unmarkList f cs es = .ok r → POKL cs → EntsOK es → (∀ x ∈ placedL cs, x ∈ names es) → ULPost' cs es r) := by
+  intro f
+  induction f with
+  | zero => exact ⟨fun _ _ _ h => by simp [unmarkAll] at h, fun _ _ _ h => by simp [unmarkList] at h⟩
+  | succ f ih =>
+    obtain ⟨ih1, ih2⟩ := ih
+    refine ⟨?_, ?_⟩
+    · intro t es r h hp hok hin
+      cases t with
+      | simple n v im =>
+        simp only [unmarkAll] at h
+        exact simpleUnmark_spec' hok n v im hp hin r h
+      | mult j v c c1 k cs =>
+        have hpl : POKL cs := hp.2
+        cases j with
+        | or => exact absurd rfl hp.1
+        | and =>
+          simp only [unmarkAll] at h
+          obtain ⟨⟨cs', es'⟩, h1, h2⟩ := bind_ok' h
+          cases h2
+          obtain ⟨a1, a2, a3, a4, a5, _⟩ := ih2 cs es _ h1 hpl hok hin
+          exact ⟨a1, a2, a3, a4, ⟨hp.1, a5⟩, rfl⟩
+        | andor =>
+          simp only [unmarkAll] at h
+          obtain ⟨⟨cs', es'⟩, h1, h2⟩ := bind_ok' h
+          cases h2
+          obtain ⟨a1, a2, a3, a4, a5, _⟩ := ih2 cs es _ h1 hpl hok hin
+          exact ⟨a1, a2, a3, a4, ⟨hp.1, a5⟩, rfl⟩
+    · intro cs es r h hp hok hin
+      cases cs with
+      | nil =>
+        simp only [unmarkList] at h; cases h
+        exact ⟨hok, rfl, fun x => by simp [placedL], rfl, trivial, rfl⟩
+      | cons ch rest =>
+        simp only [unmarkList] at h
+        obtain ⟨⟨ch', es1⟩, h1, h2⟩ := bind_ok' h
+        obtain ⟨⟨rest', es2⟩, h3, h4⟩ := bind_ok' h2
+        cases h4
+        have hin1 : ∀ x ∈ placed ch, x ∈ names es := fun x hx => hin x (by simp [placedL, hx])
+        obtain ⟨a1, a2, a3, a4, a5, a6⟩ := ih1 ch es _ h1 hp.1 hok hin1
+        have hin2 : ∀ x ∈ placedL rest, x ∈ names es1 := fun x hx => by
+          rw [a2]; exact hin x (by simp [placedL, hx])
+        obtain ⟨b1, b2, b3, b4, b5, b6⟩ := ih2 rest es1 _ h3 hp.2 a1 hin2
+        refine ⟨b1, b2.trans a2, fun x => ?_, by simp [placedL, a4, b4], ⟨a5, b5⟩, by simp [a6, b6]⟩
+        rw [b3 x, a3 x]
+        simp only [placedL, List.mem_append, not_or, and_assoc]
+
+
+-- ------------------------------------------------------------------ satisfied lists and their cover (request = `N`)
+mutual
+  /-- the list's requirements are met by the request -/
+  def satT (N : List Name) : Tree → Bool
+    | .simple n => N.contains n
+    | .and cs => satAll N cs
+    | .andor cs => satAny N cs
+    | .or _ => false
+  def satAll (N : List Name) : List Tree → Bool
+    | [] => true
+    | c :: cs => satT N c && satAll N cs
+  def satAny (N : List Name) : List Tree → Bool
+    | [] => false
+    | c :: cs => satT N c || satAny N cs
+end
+
+mutual
+  /-- the request members a satisfied list accounts for -/
+  def covT (N : List Name) : Tree → List Name
+    | .simple n => [n]
+    | .and cs => covAll N cs
+    | .andor cs => covSat N cs
+    | .or _ => []
+  def covAll (N : List Name) : List Tree → List Name
+    | [] => []
+    | c :: cs => covT N c ++ covAll N cs
+  def covSat (N : List Name) : List Tree → List Name
+    | [] => []
+    | c :: cs => (if satT N c then covT N c else []) ++ covSat N cs
+end
+
+mutual
+  def orFree : Tree → Bool
+    | .simple _ => true
+    | .and cs => orFreeL cs
+    | .andor cs => orFreeL cs
+    | .or _ => false
+  def orFreeL : List Tree → Bool
+    | [] => true
+    | c :: cs => orFree c && orFreeL cs
+end
+
+-- ------------------------------------------------------------------ `JoinList::setViableVal` on lists without UNKNOWN children
+theorem go_and (es : Ents) : ∀ (cs : List ST) (v : MT),
+    (∀ c ∈ cs, c.viable = .some_ ∨ c.viable = .all) → (v = .unknown ∨ v = .some_ ∨ v = .all) → (cs ≠ [] ∨ v ≠ .unknown) →
+    (setViableVal.go es v cs = .some_ ∨ setViableVal.go es v cs = .all) ∧
+    (setViableVal.go es v cs = .all ↔ (v = .all ∨ ∃ c ∈ cs, c.viable = .all) ∧ allMarked es = true) := by
+  intro cs
+  induction cs with
+  | nil =>
+    intro v _ hv hne
+    have hv' : v = .some_ ∨ v = .all := by
+      rcases hv with h | h | h
+      · rcases hne with h' | h'
+        · exact absurd rfl h'
+        · exact absurd h h'
+      · exact Or.inl h
+      · exact Or.inr h
+    simp only [setViableVal.go]
+    rcases hv' with h | h <;> subst h
+    · simp
+    · by_cases ha : allMarked es = true <;> simp [ha]
+  | cons c cs ih =>
+    intro v hc hv _
+    have hcv := hc c (by simp)
+    have hrest : ∀ c' ∈ cs, c'.viable = .some_ ∨ c'.viable = .all := fun c' h => hc c' (List.mem_cons_of_mem _ h)
+    have hcu : c.viable ≠ .unknown := by rcases hcv with h | h <;> rw [h] <;> simp
+    simp only [setViableVal.go, hcu, if_false]
+    -- the new running maximum
+    have key : ∀ v', (v' = .some_ ∨ v' = .all) → (v' = .all ↔ v = .all ∨ c.viable = .all) →
+        (setViableVal.go es v' cs = .some_ ∨ setViableVal.go es v' cs = .all) ∧
+        (setViableVal.go es v' cs = .all ↔ (v = .all ∨ ∃ c' ∈ c :: cs, c'.viable = .all) ∧ allMarked es = true) := by
+      intro v' hv' hiff
+      obtain ⟨h1, h2⟩ := ih v' hrest (Or.inr hv') (Or.inr (by rcases hv' with h | h <;> rw [h] <;> simp))
+      refine ⟨h1, ?_⟩
+      rw [h2, hiff]
+      simp only [List.mem_cons, exists_eq_or_imp]
+      constructor
+      · rintro ⟨(h | h) | h, ha⟩
+        · exact ⟨Or.inl h, ha⟩
+        · exact ⟨Or.inr (Or.inl h), ha⟩
+        · exact ⟨Or.inr (Or.inr h), ha⟩
+      · rintro ⟨h | h | h, ha⟩
+        · exact ⟨Or.inl (Or.inl h), ha⟩
+        · exact ⟨Or.inl (Or.inr h), ha⟩
+        · exact ⟨Or.inr h, ha⟩
+    rcases hv with h | h | h <;> rcases hcv with h' | h' <;> subst h <;> rw [h']
+    all_goals first
+      | (have := key .some_ (Or.inl rfl) (by simp [h']); simpa [MT.rank, h'] using this)
+      | (have := key .all (Or.inr rfl) (by simp [h']); simpa [MT.rank, h'] using this)
+
+theorem setViableVal_and (cs : List ST) (es : Ents) (hne : cs ≠ [])
+    (hc : ∀ c ∈ cs, c.viable = .some_ ∨ c.viable = .all) :
+    (setViableVal cs es = .some_ ∨ setViableVal cs es = .all) ∧
+    (setViableVal cs es = .all ↔ (∃ c ∈ cs, c.viable = .all) ∧ allMarked es = true) := by
+  have := go_and es cs .unknown hc (Or.inl rfl) (Or.inl hne)
+  simpa [setViableVal] using this
+
+
+theorem go_andor (es : Ents) : ∀ (cs : List ST) (v : MT),
+    (∀ c ∈ cs, c.viable = .unsat ∨ c.viable = .some_) → (v = .unknown ∨ v = .unsat ∨ v = .some_) → (cs ≠ [] ∨ v ≠ .unknown) →
+    (setViableVal.go es v cs = .unsat ∨ setViableVal.go es v cs = .some_) ∧
+    (setViableVal.go es v cs = .some_ ↔ (v = .some_ ∨ ∃ c ∈ cs, c.viable = .some_)) := by
+  intro cs
+  induction cs with
+  | nil =>
+    intro v _ hv hne
+    simp only [setViableVal.go]
+    rcases hv with h | h | h
+    · rcases hne with h' | h'
+      · exact absurd rfl h'
+      · exact absurd h h'
+    · subst h; simp
+    · subst h; simp
+  | cons c cs ih =>
+    intro v hc hv _
+    have hcv := hc c (by simp)
+    have hrest : ∀ c' ∈ cs, c'.viable = .unsat ∨ c'.viable = .some_ := fun c' h => hc c' (List.mem_cons_of_mem _ h)
+    have hcu : c.viable ≠ .unknown := by rcases hcv with h | h <;> rw [h] <;> simp
+    simp only [setViableVal.go, hcu, if_false]
+    have key : ∀ v', (v' = .unsat ∨ v' = .some_) → (v' = .some_ ↔ v = .some_ ∨ c.viable = .some_) →
+        (setViableVal.go es v' cs = .unsat ∨ setViableVal.go es v' cs = .some_) ∧
+        (setViableVal.go es v' cs = .some_ ↔ (v = .some_ ∨ ∃ c' ∈ c :: cs, c'.viable = .some_)) := by
+      intro v' hv' hiff
+      obtain ⟨h1, h2⟩ := ih v' hrest (Or.inr hv') (Or.inr (by rcases hv' with h | h <;> rw [h] <;> simp))
+      refine ⟨h1, ?_⟩
+      rw [h2, hiff]
+      simp only [List.mem_cons, exists_eq_or_imp]
+      constructor
+      · rintro ((h | h) | h)
+        · exact Or.inl h
+        · exact Or.inr (Or.inl h)
+        · exact Or.inr (Or.inr h)
+      · rintro (h | h | h)
+        · exact Or.inl (Or.inl h)
+        · exact Or.inl (Or.inr h)
+        · exact Or.inr h
+    rcases hv with h | h | h <;> rcases hcv with h' | h' <;> subst h <;> rw [h']
+    all_goals first
+      | (have := key .unsat (Or.inl rfl) (by simp [h']); simpa [MT.rank, h'] using this)
+      | (have := key .some_ (Or.inr rfl) (by simp [h']); simpa [MT.rank, h'] using this)
+
+theorem setViableVal_andor (cs : List ST) (es : Ents) (hne : cs ≠ [])
+    (hc : ∀ c ∈ cs, c.viable = .unsat ∨ c.viable = .some_) :
+    (setViableVal cs es = .unsat ∨ setViableVal cs es = .some_) ∧
+    (setViableVal cs es = .some_ ↔ ∃ c ∈ cs, c.viable = .some_) := by
+  have := go_andor es cs .unknown hc (Or.inl rfl) (Or.inl hne)
+  simpa [setViableVal] using this
+
+
+-- ------------------------------------------------------------------ facts about trees
+theorem isOr_fresh {t : Tree} (h : orFree t = true) : (fresh t).isOr = false := by
+  cases t <;> simp [fresh, ST.isOr, orFree] at h ⊢
+
+mutual
+  theorem fresh_POK : ∀ (t : Tree), orFree t = true → POK (fresh t) ∧ placed (fresh t) = []
+    | .simple n, _ => ⟨POK_simple_no n .unknown, rfl⟩
+    | .and cs, h => by
+      simp only [orFree] at h
+      obtain ⟨h1, h2⟩ := freshL_POK cs h
+      exact ⟨⟨by simp, h1⟩, h2⟩
+    | .andor cs, h => by
+      simp only [orFree] at h
+      obtain ⟨h1, h2⟩ := freshL_POK cs h
+      exact ⟨⟨by simp, h1⟩, h2⟩
+    | .or cs, h => by simp [orFree] at h
+  theorem freshL_POK : ∀ (cs : List Tree), orFreeL cs = true → POKL (freshL cs) ∧ placedL (freshL cs) = []
+    | [], _ => ⟨trivial, rfl⟩
+    | c :: cs, h => by
+      simp only [orFreeL, Bool.and_eq_true] at h
+      obtain ⟨a1, a2⟩ := fresh_POK c h.1
+      obtain ⟨b1, b2⟩ := freshL_POK cs h.2
+      exact ⟨⟨a1, b1⟩, by simp [freshL, placedL, a2, b2]⟩
+end
+
+mutual
+  theorem cov_sub_leaves (N : List Name) : ∀ (t : Tree), ∀ x ∈ covT N t, x ∈ leaves t
+    | .simple n, x, hx => by simpa [covT, leaves] using hx
+    | .and cs, x, hx => by simp only [covT] at hx; simp only [leaves]; exact covAll_sub N cs x hx
+    | .andor cs, x, hx => by simp only [covT] at hx; simp only [leaves]; exact covSat_sub N cs x hx
+    | .or cs, x, hx => by simp [covT] at hx
+  theorem covAll_sub (N : List Name) : ∀ (cs : List Tree), ∀ x ∈ covAll N cs, x ∈ leavesL cs
+    | [], x, hx => by simp [covAll] at hx
+    | c :: cs, x, hx => by
+      simp only [covAll, List.mem_append] at hx
+      simp only [leavesL, List.mem_append]
+      rcases hx with h | h
+      · exact Or.inl (cov_sub_leaves N c x h)
+      · exact Or.inr (covAll_sub N cs x h)
+  theorem covSat_sub (N : List Name) : ∀ (cs : List Tree), ∀ x ∈ covSat N cs, x ∈ leavesL cs
+    | [], x, hx => by simp [covSat] at hx
+    | c :: cs, x, hx => by
+      simp only [covSat, List.mem_append] at hx
+      simp only [leavesL, List.mem_append]
+      rcases hx with h | h
+      · split at h
+        · exact Or.inl (cov_sub_leaves N c x h)
+        · cases h
+      · exact Or.inr (covSat_sub N cs x h)
+end
+
+mutual
+  /-- the cover of a satisfied list lies in the request and is not empty -/
+  theorem cov_sat (N : List Name) : ∀ (t : Tree), satT N t = true → treeWF t = true →
+      (∀ x ∈ covT N t, x ∈ N) ∧ covT N t ≠ []
+    | .simple n, h, _ => by
+      simp only [satT, List.contains_eq_mem, decide_eq_true_eq] at h
+      exact ⟨fun x hx => by simp only [covT, List.mem_singleton] at hx; rw [hx]; exact h, by simp [covT]⟩
+    | .and cs, h, hw => by
+      simp only [satT] at h
+      simp only [treeWF, Bool.and_eq_true, Bool.not_eq_true', List.isEmpty_eq_false_iff] at hw
+      simp only [covT]
+      exact covAll_sat N cs h hw.2 hw.1
+    | .andor cs, h, hw => by
+      simp only [satT] at h
+      simp only [treeWF, Bool.and_eq_true, Bool.not_eq_true', List.isEmpty_eq_false_iff] at hw
+      simp only [covT]
+      exact covSat_sat N cs h hw.2
+    | .or cs, h, _ => by simp [satT] at h
+  theorem covAll_sat (N : List Name) : ∀ (cs : List Tree), satAll N cs = true → treeWFL cs = true → cs ≠ [] →
+      (∀ x ∈ covAll N cs, x ∈ N) ∧ covAll N cs ≠ []
+    | [], _, _, hne => absurd rfl hne
+    | c :: cs, h, hw, _ => by
+      simp only [satAll, Bool.and_eq_true] at h
+      simp only [treeWFL, Bool.and_eq_true] at hw
+      obtain ⟨a1, a2⟩ := cov_sat N c h.1 hw.1
+      refine ⟨fun x hx => ?_, by simp [covAll, a2]⟩
+      simp only [covAll, List.mem_append] at hx
+      rcases hx with h1 | h1
+      · exact a1 x h1
+      · cases cs with
+        | nil => simp [covAll] at h1
+        | cons c' cs' => exact (covAll_sat N (c' :: cs') h.2 hw.2 (by simp)).1 x h1
+  theorem covSat_sat (N : List Name) : ∀ (cs : List Tree), satAny N cs = true → treeWFL cs = true →
+      (∀ x ∈ covSat N cs, x ∈ N) ∧ covSat N cs ≠ []
+    | [], h, _ => by simp [satAny] at h
+    | c :: cs, h, hw => by
+      simp only [treeWFL, Bool.and_eq_true] at hw
+      simp only [covSat]
+      by_cases hc : satT N c = true
+      · obtain ⟨a1, a2⟩ := cov_sat N c hc hw.1
+        simp only [hc, if_true]
+        refine ⟨fun x hx => ?_, by simp [a2]⟩
+        rcases List.mem_append.mp hx with h1 | h1
+        · exact a1 x h1
+        · by_cases hr : satAny N cs = true
+          · exact (covSat_sat N cs hr hw.2).1 x h1
+          · exact covSat_in N cs hw.2 x h1
+      · simp only [satAny, hc, Bool.false_or] at h
+        simp only [hc, Bool.false_eq_true, if_false, List.nil_append]
+        exact covSat_sat N cs h hw.2
+  theorem covSat_in (N : List Name) : ∀ (cs : List Tree), treeWFL cs = true → ∀ x ∈ covSat N cs, x ∈ N
+    | [], _, x, hx => by simp [covSat] at hx
+    | c :: cs, hw, x, hx => by
+      simp only [treeWFL, Bool.and_eq_true] at hw
+      simp only [covSat, List.mem_append] at hx
+      rcases hx with h | h
+      · split at h
+        · rename_i hc; exact (cov_sat N c hc hw.1).1 x h
+        · cases h
+      · exact covSat_in N cs hw.2 x h
+end
+
 end StepModel.Complex.Match
